@@ -455,3 +455,34 @@ Theorem genesis_roundtrip_keeps_admins : forall (c : cfg) (str_of : acct -> stri
     xwf c xs'.
 Proof. exact genesis_roundtrip_effect. Qed.
 Print Assumptions genesis_roundtrip_keeps_admins.
+
+(** ---- the second-round model is of the source as it is now ---- *)
+
+(** The msg service router of the pinned cosmos-sdk calls ValidateBasic before the service method
+    (so gov, authz MsgExec, wasm stargate/any messages, ICA host and baseapp itself all do); the only
+    functions that build the tokenfactory msg server themselves are the four bindings below (each
+    calls ValidateBasic first: their skeletons) and the module's RegisterServices; libmeta.ValidateBasic
+    parses the creator together with the signers; bank's genesis runs before tokenfactory's; and the
+    guard skeletons of the bindings, UpdateParams, the index and the genesis code are the ones
+    Chain.v was written against. *)
+Theorem model_is_of_current_source_round2 :
+  (Gen.C16.sdk_router_validates_basic = true /\ Gen.C16.bank_genesis_before_tokenfactory = true) /\
+  (
+   Gen.C16.b_dispatch = ["case(contractMsg.CreateDenom != nil){ret-call:createDenom}"; "case(contractMsg.MintTokens != nil){ret-call:mintTokens}"; "case(contractMsg.ChangeAdmin != nil){ret-call:changeAdmin}"; "case(contractMsg.BurnTokens != nil){ret-call:burnTokens}"; "case(contractMsg.SetMetadata != nil){ret-call:setMetadata}"; "err:libwasm.ErrUnrecognizedMessage"] /\
+   Gen.C16.b_perform_create_denom = ["if(createDenom == nil){err:wasmvmtypes.InvalidRequest{Err: ""create denom null create denom""}}"; "call:NewMsgServerImpl"; "call:NewMsgCreateDenom"; "call:ValidateBasic"; "call:CreateDenom"; "if(createDenom.Metadata != nil){assign:newDenom;call:PerformSetMetadata}"; "ret-call:Marshal"] /\
+   Gen.C16.b_perform_mint = ["if(mint == nil){err:wasmvmtypes.InvalidRequest{Err: ""mint token null mint""}}"; "call:parseAddress"; "assign:coin"; "call:NewMsgMint"; "call:ValidateBasic"; "call:NewMsgServerImpl"; "call:Mint"; "call:SendCoins"] /\
+   Gen.C16.b_change_admin = ["if(changeAdmin == nil){err:wasmvmtypes.InvalidRequest{Err: ""changeAdmin is nil""}}"; "call:parseAddress"; "call:NewMsgChangeAdmin"; "call:ValidateBasic"; "call:NewMsgServerImpl"; "call:ChangeAdmin"] /\
+   Gen.C16.b_perform_burn = ["if(burn == nil){err:wasmvmtypes.InvalidRequest{Err: ""burn token null mint""}}"; "if(burn.BurnFromAddress != """" && burn.BurnFromAddress != contractAddr.String()){err:wasmvmtypes.InvalidRequest{Err: ""BurnFromAddress must be \""\""""}}"; "assign:coin"; "call:NewMsgBurn"; "call:ValidateBasic"; "call:NewMsgServerImpl"; "call:Burn"] /\
+   Gen.C16.b_perform_set_metadata = ["call:GetAuthorityMetadata"; "if(auth.Admin != contractAddr.String()){err:wasmvmtypes.InvalidRequest{Err: ""only admin can set metadata""}}"; "if(metadata.Base == """"){assign:metadata.Base}"; "else{if(metadata.Base != denom){err:wasmvmtypes.InvalidRequest{Err: ""Base must be the same as denom""}}}"; "call:wasmMetadataToSdk"; "call:Validate"; "call:SetDenomMetaData"] /\
+   Gen.C16.b_parse_address = ["call:AccAddressFromBech32"; "call:VerifyAddressFormat"] /\
+   Gen.C16.srv_update_params = ["call:ValidateBasic"; "call:Validate"; "if(msg.Authority != msg.Metadata.Creator){err:types.ErrUnauthorized}"; "if(msg.Authority != server.authority){err:types.ErrUnauthorized}"; "call:SetParams"] /\
+   Gen.C16.vb_update_params = ["call:ValidateBasic"; "if(m.Authority != m.Metadata.Creator){err:ErrUnauthorized}"; "call:AccAddressFromBech32"; "ret-call:Validate"] /\
+   Gen.C16.k_add_denom_from_creator = ["call:GetCreatorPrefixStore"; "call:Set"] /\
+   Gen.C16.k_get_denoms_from_creator = ["call:GetCreatorPrefixStore"; "call:Iterator"; "defer"; "assign:denoms"; "loop{call:append}"; "err:denoms"] /\
+   Gen.C16.k_init_genesis = ["if(genState.Params.DenomCreationFee == nil){call:NewCoins}"; "call:SetParams"; "range(genState.GetFactoryDenoms()){call:DeconstructDenom;panic-on-err;call:createDenomAfterValidation;panic-on-err;call:setAuthorityMetadata;panic-on-err}"] /\
+   Gen.C16.k_export_genesis = ["assign:genDenoms"; "call:GetAllDenomsIterator"; "defer"; "loop{call:string;call:GetAuthorityMetadata;panic-on-err;call:append}"; "err:&types.GenesisState{ FactoryDenoms: genDenoms, Params: k.GetParams(ctx), }"] /\
+   Gen.C16.t_genesis_validate = ["call:Validate"; "assign:seenDenoms"; "range(gs.GetFactoryDenoms()){if(seenDenoms[denom.GetDenom()]){err:ErrInvalidGenesis};assign:seenDenoms[denom.GetDenom()];call:DeconstructDenom;if(denom.AuthorityMetadata.Admin != """"){call:AccAddressFromBech32}}"] /\
+   Gen.C16.libmeta_validate_basic = ["call:GetSigners"; "call:GetCreator"; "if(len(signers) < 1){err:ErrMissingSigners}"; "range(append(signers, creator)){call:AccAddressFromBech32}"] /\
+   Gen.C16.direct_msg_server_callers = ["x/tokenfactory/bindings/msg_plugin.go:ChangeAdmin"; "x/tokenfactory/bindings/msg_plugin.go:PerformBurn"; "x/tokenfactory/bindings/msg_plugin.go:PerformCreateDenom"; "x/tokenfactory/bindings/msg_plugin.go:PerformMint"; "x/tokenfactory/module.go:RegisterServices"])%string.
+Proof. repeat split; reflexivity. Qed.
+Print Assumptions model_is_of_current_source_round2.
